@@ -66,6 +66,9 @@ def cases(tier, seed):
         yield "triangle", dict(i=i)
     for i in range(n):
         yield "translate", dict(i=i)
+    for fn in ("gcd", "bear", "translate"):
+        for pattern in range(1, 16):
+            yield "arrays", dict(fn=fn, pattern=pattern, k0=5)
     for d in range(0, 90):
         yield "dms_boundary", dict(d=d)
     for h in range(0, 24):
@@ -163,6 +166,55 @@ def ev_triangle(case, ctx):
     for (b, c) in bad[:5]:
         ctx.violation("triangle inequality: d(a,c)=%.12g > d(a,b)+d(b,c)=%.12g for a=%r b=%r c=%r" % (
             lhs[0, c], rhs[b, c], a, P[b], P[c]), "triangle|(%r,%r,%r)" % (a, P[b], P[c]))
+
+
+def ev_arrays(case, ctx):
+    """every function with float ndarray arguments in every argument position: same answers as the scalar calls, the
+    caller's arrays are left untouched, and a second call with the same arrays gives the same answer"""
+    P = [p for p in points(ctx.seed) if abs(p[1]) < 89.9]
+    ra = np.array([p[0] for p in P], dtype=np.float64)
+    dec = np.array([p[1] for p in P], dtype=np.float64)
+    n = len(P)
+    ra2, dec2 = np.roll(ra, 7), np.roll(dec, 7)
+    r = np.array([R_SET[k % len(R_SET)] for k in range(n)], dtype=np.float64)
+    th = np.array([T_SET[(3 * k) % len(T_SET)] + 11.0 for k in range(n)], dtype=np.float64)
+    fn = case["fn"]
+    pattern = case["pattern"]       # which arguments are arrays (bit mask over the four arguments)
+    full = dict(gcd=(ra, dec, ra2, dec2), bear=(ra, dec, ra2, dec2), translate=(ra, dec, r, th))[fn]
+    f = getattr(at, fn)
+    k0 = case["k0"]
+    args = [np.array(a_, copy=True) if (pattern >> j) & 1 else float(a_[k0]) for j, a_ in enumerate(full)]
+    keep = [np.array(a_, copy=True) if isinstance(a_, np.ndarray) else a_ for a_ in args]
+    sig = "arrays:%s,pattern=%s,k0=%d" % (fn, format(pattern, "04b"), k0)
+    ctx.count("array_call")
+    ctx.nontrivial(sig)
+    try:
+        out1 = f(*args)
+        changed = [j for j, (a_, b_) in enumerate(zip(args, keep)) if isinstance(a_, np.ndarray) and not np.array_equal(a_, b_)]
+        out2 = f(*args)
+    except Exception as e:
+        ctx.violation("%s with array arguments %s raised %r" % (fn, format(pattern, "04b"), e), "array_raise|" + sig)
+        return
+    if changed:
+        ctx.violation("%s changed its caller's array argument(s) %r in place (largest change %.6g)" % (
+            fn, changed, max(float(np.max(np.abs(args[j] - keep[j]))) for j in changed)), "array_mutated|" + sig)
+    o1 = [np.asarray(o, dtype=float) for o in (out1 if isinstance(out1, tuple) else (out1,))]
+    o2 = [np.asarray(o, dtype=float) for o in (out2 if isinstance(out2, tuple) else (out2,))]
+    if any(not np.array_equal(a_, b_, equal_nan=True) for a_, b_ in zip(o1, o2)) and not changed:
+        ctx.violation("%s: a second call with the same arrays gives another answer" % fn, "array_repeat|" + sig)
+    # element by element against scalar calls on the ORIGINAL values
+    bad = 0
+    for k in range(n):
+        sargs = [float(b_[k]) if isinstance(b_, np.ndarray) else b_ for b_ in keep]
+        ref = f(*sargs)
+        ref = [float(x) for x in (ref if isinstance(ref, tuple) else (ref,))]
+        for o, rv in zip(o1, ref):
+            got = float(o[k]) if o.ndim else float(o)
+            if not (got == rv or abs(got - rv) < 1e-12 or (got != got and rv != rv)):
+                bad += 1
+    if bad:
+        ctx.violation("%s: array call differs from the scalar calls in %d elements" % (fn, bad), "array_vs_scalar|" + sig)
+    ctx.outcome("arrays:%s" % ("ok" if not (bad or changed) else "bad"))
 
 
 def ev_translate(case, ctx):
@@ -335,7 +387,7 @@ def ev_nonfinite(case, ctx):
                 ctx.violation("%s(%r) = %r" % (f.__name__, x, f(x)), "nonfinite|%s(%r)" % (f.__name__, x))
 
 
-CLAUSES = dict(gcd_pairs=ev_gcd_pairs, bear_pairs=ev_bear_pairs, triangle=ev_triangle, translate=ev_translate,
+CLAUSES = dict(arrays=ev_arrays, gcd_pairs=ev_gcd_pairs, bear_pairs=ev_bear_pairs, triangle=ev_triangle, translate=ev_translate,
                dms_boundary=ev_dms_boundary, hms_boundary=ev_hms_boundary, sexa_lattice=ev_sexa_lattice,
                nonfinite=ev_nonfinite)
 
